@@ -232,6 +232,10 @@ func init() {
 		},
 		"(*sync.WaitGroup).Done": func(ip *Interp, fn *ssa.Function, a []Value) Value {
 			c := ip.wgCounter(a[0])
+			if ip.race != nil {
+				slot := a[0].(Pointer).Slot
+				ip.race.wg[slot] = vcJoin(ip.race.wg[slot], ip.raceRelease())
+			}
 			*c--
 			if *c < 0 {
 				ip.goPanic("sync: negative WaitGroup counter")
@@ -241,6 +245,9 @@ func init() {
 		"(*sync.WaitGroup).Wait": func(ip *Interp, fn *ssa.Function, a []Value) Value {
 			c := ip.wgCounter(a[0])
 			ip.block(func() bool { return *c == 0 }, "WaitGroup.Wait")
+			if ip.race != nil {
+				ip.raceAcquire(ip.race.wg[a[0].(Pointer).Slot])
+			}
 			return nil
 		},
 		"(*sync.Mutex).Lock":     func(ip *Interp, fn *ssa.Function, a []Value) Value { return nil },
